@@ -214,11 +214,14 @@ func (x *Exec) storeLoc(st *State, loc *Loc, nv *smt.Term) {
 		old := x.sel(h, loc.Ref, x.so.SortOf(loc.RootTyp))
 		st.heaps[key] = x.sto(h, loc.Ref, x.update(old, loc.Path, nv))
 	case loc.SliceR != nil:
+		var view *viewInfo
 		if len(x.views) > 0 {
 			// an element store through a slice that may alias an array inside a struct
-			if _, isView := x.views[loc.SliceR.ID]; isView || !(x.freshSet[loc.SliceR.ID] || x.oldSet[loc.SliceR.ID]) {
+			v, isView := x.views[loc.SliceR.ID]
+			if !isView && !(x.freshSet[loc.SliceR.ID] || x.oldSet[loc.SliceR.ID]) {
 				panic(unsupported("element store through a slice while views of struct-embedded arrays are live"))
 			}
+			view = v
 		}
 		key := x.heapKeySlice(loc.RootTyp)
 		es := x.so.SortOf(loc.RootTyp)
@@ -229,7 +232,23 @@ func (x *Exec) storeLoc(st *State, loc *Loc, nv *smt.Term) {
 		if loc.SliceO != nil {
 			abs = x.b.Add(loc.SliceO, loc.SliceI)
 		}
-		st.heaps[key] = x.sto(h, loc.SliceR, x.sto(inner, abs, x.update(old, loc.Path, nv)))
+		nwInner := x.sto(inner, abs, x.update(old, loc.Path, nv))
+		st.heaps[key] = x.sto(h, loc.SliceR, nwInner)
+		if view != nil {
+			// the slice is a view of an array inside a struct (or a local array):
+			// the store is a store into that array
+			at := view.arrTyp.Underlying().(*types.Array)
+			elems := make([]*smt.Term, at.Len())
+			for k := range elems {
+				elems[k] = x.sel(nwInner, x.b.Int(int64(k)), es)
+			}
+			x.storeLoc(st, view.loc, x.mkArray(view.arrTyp, elems))
+			for id, o := range x.views {
+				if id != loc.SliceR.ID && sameLoc(o.loc, view.loc) {
+					st.heaps[key] = x.sto(x.getHeap(st, key), o.ref, x.b.Fresh("staleview", fmt.Sprintf("(Array Int %s)", es)))
+				}
+			}
+		}
 	default:
 		panic("bad loc")
 	}
